@@ -60,7 +60,7 @@ def meta(tier):
                 assumptions=["a split inside a character context uses a leading '&' and carries no trailing comment",
                              "splits that separate a label / construct name from its statement are excluded here (recorded finding of C12)",
                              "names differ from keywords/intrinsics"],
-                budget_s=400 if q else 2400, unit_budget_s=150 if q else 300, witness_every=10)
+                budget_s=400 if q else 1500, unit_budget_s=150 if q else 300, witness_every=10)
 
 
 def _tree(ctx, text, std, ic, what):
